@@ -53,6 +53,12 @@ def calls_on(recv, *meths):
     return pred
 
 
+def deletes_prefix(prefix):
+    def pred(e):
+        return isinstance(e, ast.Delete) and any(unparse(t).startswith(prefix) for t in e.targets)
+    return pred
+
+
 def either(*preds):
     return lambda e: any(p(e) for p in preds)
 
@@ -72,7 +78,7 @@ def attr_store(attr, not_self=True):
 TABLE = [
     ('glue.core.data.Data', 'add_component', assigns_prefix('self._components['),
      ['DataAddComponentMessage', 'ComponentsChangedMessage'], ('not is_present',), 'a component is added', None, None),
-    ('glue.core.data.Data', 'remove_component', calls_on('self._components', 'pop', '__delitem__'),
+    ('glue.core.data.Data', 'remove_component', either(calls_on('self._components', 'pop', '__delitem__'), deletes_prefix('self._components[')),
      ['DataRemoveComponentMessage', 'ComponentsChangedMessage'], (), 'a component is removed', None, None),
     ('glue.core.data.Data', 'reorder_components', assigns('self._components'),
      ['DataReorderComponentMessage'], (), 'the component order changes', None, None),
